@@ -197,7 +197,7 @@ Lemma raw_got_event_G : forall s j, J true s -> InvW s -> GI sc Idle s -> rw_reg
   QG sc Idle (raw_got_event sc s j).
 Proof.
   intros s j Jh IW G RJ JR'. unfold raw_got_event.
-  set (toread := if efd_raw s =? 0 then 1024 else 8).
+  set (toread := if raw_is_pipe s j then 1024 else 8).
   pose proof (ksame_read (kern s) (rw_rfd s j) toread) as KS.
   pose proof (kstable_read (kern s) (rw_rfd s j) toread) as KSt.
   destruct (au_raw _ (InvW_AU s IW) j RJ) as (_ & X2 & _).
